@@ -76,6 +76,11 @@ def cases(tier, rng):
                 out.append(dict(id=f"c16-d{n}", mode="domain", label=label, bad=bad, kind=kind, heavy=cards.pick(rng, ["total", "light", "charm"]), theory=th,
                                 obs=dict(prDIS=proc, ProjectileDIS=cards.pick(rng, cards.PROJECTILES)), point=dict(x=0.1, Q2=20.0, y=float(cards.pick(rng, [0.5, 0.13, 1.0]))), timeout=300))  # fmt: skip
                 n += 1
+    # anchors: the two configurations known to produce non-finite numbers inside the run (F-17/F-26: dependency overflow at x = 1e-6,
+    # Q2/m2 ~ 1e6); what reaches the caller must still be finite, with or without a heavy observable in the request
+    for k, (kind_, proc_) in enumerate((("FL", "EM"), ("F3", "NC"))):
+        out.append(dict(id=f"c16-x{k}", mode="lattice", kind=kind_, heavy="light", theory=dict(PTO=2, FNS="FFNS", NfFF=3, TMC=0), obs=dict(prDIS=proc_, ProjectileDIS="electron"),
+                        point=dict(x=1e-6, Q2=2.0e6, y=0.5), extreme=True, bare=False, timeout=CASE_TIMEOUT))  # fmt: skip
     # long sessions: one process serves a card with many distinct (Q2, m) points of a massive observable and then ordinary requests of
     # other kinds - state that grows with every point served (a shared list, a table that fills up) only shows after dozens of points
     for k in range(2 if tier == "quick" else 24):
